@@ -8,6 +8,7 @@ import boot  # noqa: F401
 import numpy as np
 
 from core import Ctx, Violation, err_name, ints, line
+from props import c04_poisson as P
 from props import maskgen_common as G
 
 PROP = "C04"
@@ -79,7 +80,7 @@ CRASH_LOG: list = []
 def fe_worker() -> G.Worker:
     global _fe_worker
     if _fe_worker is None:
-        _fe_worker = G.Worker(env={"VERIF_FORCE_FRONTEND": "1"})
+        _fe_worker = G.Worker("props.c04_poisson", "run_gen", env={"VERIF_FORCE_FRONTEND": "1"})
         atexit.register(_fe_worker.close)
     return _fe_worker
 
@@ -90,9 +91,21 @@ _vdp_worker: G.Worker | None = None         # compiled kernels, VariableDensityP
 def vdp_worker() -> G.Worker:
     global _vdp_worker
     if _vdp_worker is None:
-        _vdp_worker = G.Worker()
+        _vdp_worker = G.Worker("props.c04_poisson", "run_gen")
         atexit.register(_vdp_worker.close)
     return _vdp_worker
+
+
+_kernel_workers: dict[bool, G.Worker] = {}
+
+
+def kernel_worker(frontend: bool) -> G.Worker:
+    """direct calls of the `_poisson` kernel (compiled, or the bounds-checked .pyx front-end)"""
+    if frontend not in _kernel_workers:
+        w = G.Worker("props.c04_poisson", "run_kernel", env={"VERIF_FORCE_FRONTEND": "1"} if frontend else None)
+        atexit.register(w.close)
+        _kernel_workers[frontend] = w
+    return _kernel_workers[frontend]
 
 
 def route(spec: dict):
@@ -292,6 +305,10 @@ def gen_lines(spec: dict, res: dict):
                         fl.append(int(np.mod((i + np.ceil(J ** c) - 1), K)))
                 frames.append(fl)
         return line("gen_circus", hdr, shape, specg, [max(M, 0)], *frames)
+    if name == "VariableDensityPoisson" and not racs and res.get("ok") and res.get("frames"):
+        ln = poisson_gen_line(spec, res, cf)
+        if ln is not None:
+            return ln
     # interior given as data
     if fam in ("line", "ktline"):
         l = G.num_low_freqs(name, cols, cf)
@@ -321,6 +338,28 @@ def gen_lines(spec: dict, res: dict):
             return None
         interior = [real["rows"][f * rows] for f in range(F)] if fam == "ktline" else list(real["rows"])
     return line("gen", hdr, shape, specg, interior)
+
+
+def poisson_gen_line(spec: dict, res: dict, cf):
+    """`gen_poisson` line: the model runs the `_poisson` kernel of every frame on the recorded `rand()` stream (the
+    arguments of the last bisection step, as the real call recorded them), ORs the ACS disc, crops, reshapes"""
+    shape, mode = spec["shape"], spec["mode"]
+    rows, cols = shape[-3], shape[-2]
+    groups = []
+    for fr in res["frames"]:
+        if "nx" not in fr or fr["nx"] * fr["ny"] > 1600:
+            return None
+        rx = np.array([P.undy(fr["rx"][i], fr["rx"][i + 1]) for i in range(0, len(fr["rx"]), 2)]).reshape(fr["nx"], fr["ny"])
+        ry = np.array([P.undy(fr["ry"][i], fr["ry"][i + 1]) for i in range(0, len(fr["ry"]), 2)]).reshape(fr["nx"], fr["ny"])
+        tr = P.trace(fr["nx"], fr["ny"], fr["ma"], rx, ry, fr["seed"])
+        if tr["halt"]:
+            return None
+        trig: list[int] = []
+        for t, c, sn in tr["trig"]:
+            trig.extend(P.dy(t) + P.dy(c) + P.dy(sn))
+        groups += [[fr["nx"], fr["ny"], fr["ma"], len(tr["draws"]) + 2], tr["draws"], fr["rx"], fr["ry"], trig]
+    return line("gen_poisson", [mid(mode)], shape, [G.disc_radius(rows, cols, cf), 1 if "crop" in res else 0],
+                res.get("crop", []), *groups)
 
 
 def circus_thresholds(rows: int, cols: int) -> list[int]:
@@ -367,6 +406,7 @@ def generator_cases(ctx: Ctx, per_gen: int, acs: bool):
                 a = answer(res)
                 yield {"line": ln, "impl": (lambda a=a: a), "nontrivial": res.get("ok", False),
                        "bucket": f"gen/{name}/{mode}/" + ("acs" if racs else "mask") + ("+opts" if s.get("extra") else "")
+                                 + ("+kernel-model" if ln.startswith("gen_poisson") else "")
                                  + ("+build" if s.get("via_build") else "")}
 
 
@@ -562,8 +602,119 @@ def kernel_cases(ctx: Ctx):
                    "bucket": "kernel/build_masking_function"}
 
 
+# --------------------------------------------------------------------------------------------------
+# `_poisson.pyx` against Model/C04Poisson.lean
+KERNEL_SIZES = [(8, 8), (9, 12), (12, 9), (16, 16), (8, 24), (24, 8), (13, 21), (16, 12), (11, 11), (10, 17)]
+# (nx, ny, max_attempts, slope, seed): run through the bounds-checked .pyx front-end; the first four overrun the active
+# lists (the last two of them are the `decide`d witnesses `poisson_current_overruns_fresh/_stale` of Props/C04.lean)
+KERNEL_FRONTEND_CORPUS = [(8, 8, 30, 0.0, 2), (4, 4, 30, 0.0, 0), (1, 2, 1, 0.0, 233), (2, 2, 10, 0.0, 272), (8, 8, 10, 2.0, 1),
+                          (9, 12, 10, 0.0, 4)]
+
+
+def kernel_case(nx, ny, ma, slope, seed, frontend: bool, tables=None):
+    rx, ry = tables if tables is not None else P.radii(nx, ny, slope)
+    tr = P.trace(nx, ny, ma, rx, ry, seed)
+    if tr["halt"] == "Timeout":
+        return None
+    spec = {"nx": nx, "ny": ny, "max_attempts": ma, "seed": seed}
+    if tables is not None:
+        spec["rx"], spec["ry"] = rx.reshape(-1).tolist(), ry.reshape(-1).tolist()
+    else:
+        spec["slope"] = slope
+    if tr["halt"] == "IndexError" and not frontend:
+        return None                   # never hand an overrunning call to the compiled kernel
+    real = kernel_worker(frontend).run(spec, 60.0)
+    if real.get("hang"):
+        a = "err Timeout"
+    elif not real.get("ok"):
+        a = "err " + real.get("err", "Unknown")
+    else:
+        st = list(tr["stats"])
+        st[0] = P.consumed_by_real(seed, real["next"], len(tr["draws"]))
+        a = "ok " + ints(real["rows"]) + " | " + ints(st)
+        if real.get("values") not in ([0], [1], [0, 1]):
+            a = "err NonBooleanMask"
+    return {"line": P.kernel_line(nx, ny, ma, rx, ry, tr), "impl": (lambda a=a: a), "nontrivial": tr["stats"][3] > 0 or bool(tr["halt"]),
+            "bucket": "kernel/_poisson/" + ("frontend" if frontend else "compiled") + ("/tables" if tables is not None else "")
+                      + ("/overrun" if tr["halt"] else "/stale" if tr["stats"][5] else "")}
+
+
+def poisson_kernel_cases(ctx: Ctx):
+    import math
+    from fractions import Fraction
+
+    rng = ctx.rng
+    f32, f64 = np.float32, np.float64
+
+    def rand_double():
+        k = rng.random()
+        if k < 0.2:
+            return float(rng.randint(-4000, 4000))
+        if k < 0.4:
+            return math.ldexp(rng.randrange(1, 2 ** 53), rng.randint(-80, 10)) * rng.choice([1, -1])
+        if k < 0.6:      # a float32 value plus / minus exactly half a float32 ulp: a tie for `round f32`
+            b = float(f32(rng.uniform(0.001, 900)))
+            return b + math.ldexp(1, math.frexp(b)[1] - 25) * rng.choice([1, -1])
+        return rng.uniform(-100, 100) * 10 ** rng.randint(-12, 3)
+
+    # ---- the IEEE operations of the model against numpy (correct rounding, ties to even)
+    for _ in range(ctx.budget(80, 1200)):
+        code, fmt = rng.choice([0, 1, 2, 3, 4]), rng.choice([32, 64])
+        ty = f32 if fmt == 32 else f64
+        if code == 0 and fmt == 64:
+            m, e = rng.randrange(1, 2 ** rng.randint(54, 90)) * rng.choice([1, -1]), rng.randint(-120, 10)
+            want = float(Fraction(m) * Fraction(2) ** e)
+            x = y = None
+            ln = line("fop", [0, 64], [m, e], [0, 0])
+        else:
+            x = rand_double() if (code == 0) else float(ty(rand_double()))
+            y = float(ty(rand_double())) or 1.0
+            with np.errstate(all="ignore"):
+                want = float({0: lambda: ty(x), 1: lambda: ty(x) + ty(y), 2: lambda: ty(x) - ty(y), 3: lambda: ty(x) * ty(y),
+                              4: lambda: ty(x) / ty(y)}[code]())
+            ln = line("fop", [code, fmt], P.dy(x), P.dy(y))
+        if not math.isfinite(want) or (want != 0 and abs(want) < 1e-30):
+            continue
+        a = "ok " + ints(P.dy(want))
+        yield {"line": ln, "impl": (lambda a=a: a), "nontrivial": True, "bucket": f"kernel/ieee/{['round', 'add', 'sub', 'mul', 'div'][code]}{fmt}"}
+    for _ in range(ctx.budget(20, 300)):
+        x, y, n = rand_double(), rand_double(), rng.randint(0, 90)
+        if rng.random() < 0.3:
+            y = x
+        a = "ok " + ints([int(x < y), int(x == y), int(x >= 0), int(x < n), int(x)])
+        yield {"line": line("fcmp", P.dy(x), P.dy(y), [n]), "impl": (lambda a=a: a), "nontrivial": True, "bucket": "kernel/ieee/compare-trunc"}
+    # ---- `random_uniform`, `randint`, `v`, `t` for one `rand()` value
+    for r in [0, 1, 2, P.RAND_MAX - 1, P.RAND_MAX // 2] + [rng.randrange(P.RAND_MAX) for _ in range(ctx.budget(25, 400))]:
+        upper = rng.choice([1, 2, 8, 64, 144, rng.randint(1, 6400)])
+        u = float(r) / float(P.RAND_MAX)
+        a = "ok " + " | ".join([ints(P.dy(u)), ints([int(u * upper)]), ints(P.dy(float(f32(u + 1.0)))),
+                                ints(P.dy(float(f32((2.0 * math.pi) * u))))])
+        yield {"line": line("prand", [r, upper]), "impl": (lambda a=a: a), "nontrivial": True, "bucket": "kernel/_poisson/randint-v-t"}
+    # ---- whole kernel calls: compiled kernel on sampled inputs …
+    n = 0
+    want = ctx.budget(10, 150)
+    while n < want:
+        nx, ny = rng.choice(KERNEL_SIZES)
+        slope = 0.0 if rng.random() < 0.25 else rng.uniform(0, max(nx, ny))
+        ma = rng.choice([0, 1, 3, 5, 10, 10])
+        tables = None
+        if rng.random() < 0.25:      # arbitrary (anisotropic) radius tables >= 1
+            tables = (np.array([[rng.uniform(1, 4) for _ in range(ny)] for _ in range(nx)]),
+                      np.array([[rng.uniform(1, 4) for _ in range(ny)] for _ in range(nx)]))
+        c = kernel_case(nx, ny, ma, slope, rng.randrange(100000), False, tables)
+        n += 1
+        if c is not None:
+            yield c
+    # ---- … and the fixed corpus through the bounds-checked front-end (active-list overruns included)
+    for nx, ny, ma, slope, seed in KERNEL_FRONTEND_CORPUS:
+        c = kernel_case(nx, ny, ma, slope, seed, True)
+        if c is not None:
+            yield c
+
+
 def correspondence(ctx: Ctx):
     yield from kernel_cases(ctx)
+    yield from poisson_kernel_cases(ctx)
     yield from generator_cases(ctx, ctx.budget(9, 240), acs=False)
     yield from malformed_cases(ctx, ctx.budget(40, 800))
 
